@@ -39,6 +39,10 @@ FIXED = [
  ("F34", "C19", "6e14084", "the tokio backend asserted that a write of more than 2 MiB completed in one call (panic) and returned short reads for reads above 2 MiB although the file had more data", "regress/C19/tokio-write-larger-than-2MiB.json"),
  ("F35", "C20", "604e0e6", "rqcow2 convert raw->qcow2 failed (unwrapped alignment error) for raw files whose size is not a multiple of 512", "regress/C20/convert-odd-size.json"),
  ("F36", "C20", "9c9d6b3", "check() reported a leak for valid images with preallocated zero clusters or an L1 table larger than the virtual size needs", "regress/C20/check-false-leak-zero-prealloc.json"),
+ ("F37", "C17", "9cc216e", "follow-up of F20: the pending cache entry of a failed slice load stayed in the write map and was committed into the cache, empty and without offset, by the next successful load of another slice (later panic in flush_table)", "regress/C17/failed-slice-load-committed-empty.json"),
+ ("F38", "C07", "f10853f", "follow-up of F18: settling a new metadata cluster waited for the cluster's lock while holding the new-cluster map's read lock, and cache flush holds that cluster's lock while taking the map's write lock: deadlock between discard/copy-on-write and flush_meta", "regress/C07/settle-vs-flush-deadlock.json"),
+ ("F39", "C05", "b237dee", "follow-up of F17: a reused preallocation was zeroed lazily like a new cluster, but no refcount changes, so no sync separated the zeroing from the flush of the new mapping: after a crash the mapping pointed at the stale preallocated content", "regress/C05/prealloc-reuse-exposes-stale-content.json"),
+ ("F40", "C17", "47acbfa", "follow-up of F39: a failure while zeroing a preallocation in the middle of populating the mappings of one multi-cluster write returned before the L2 slice was marked dirty, so the mappings already made were never flushed", "regress/C17/prealloc-partial-mapping-not-dirty.json"),
  ("F11", "C03", "c069255", "writing to a zero-flagged cluster with a preallocation leaked the preallocated host cluster", "regress/C03/zero-prealloc-write-leaks.json"),
 ]
 KNOWN = [
